@@ -418,7 +418,7 @@ META = {
                   'the result has exactly the visited children in order (or is None / a copy of the handle, not recursed), '
                   'visit_tuple returns the visited elements of the spliced tuple without None and (), `rebuilt` records '
                   'exactly the changed nodes, and without in-place mode neither the original node nor its Source object is '
-                  'written (the Source is cloned before it is invalidated).',
+                  'written (the Source is cloned before it is invalidated). Transformer._rebuild hands the result an invalidated clone of the source whenever a child node was rebuilt (in place or not) and the unchanged source otherwise; an identity mapper entry (node -> itself) replaces the node as a whole without descending.',
     'level_note': 'Known finding: with the default rebuild_scopes=False, visit_ScopedNode updates the ORIGINAL scoped node '
                   'in place even though inplace=False. Bounded, never counted as proved: _inject_tuple_mapping (tuple index / '
                   'slice arithmetic) is checked exhaustively against the splice specification for all tuples of length <= 4 '
